@@ -622,7 +622,10 @@ class Monitor:
         N = len(log)
         self.add_anchors(rec.get("anchors"))
         obs.maxi("kill_points_per_scenario", N)
-        obs.count("scenarios")
+        obs.count("scenario-recordings")
+        if only is None and (si % nsh) == idx:
+            obs.count("scenarios")
+            obs.count("points.listed", N)
         results = []
         # the recording run is the "no kill" case (k = 0), evaluated by the shard that owns point 0
         todo = []
@@ -741,6 +744,13 @@ class Monitor:
             results += r or []
             shutil.rmtree(case, ignore_errors=True)
         return results
+
+
+def exhaustive(tier, total):
+    """Every listed line/op kill point of every generated scenario was executed (the scenarios themselves are a sample)."""
+    c = total.get("counters", {})
+    return bool(c.get("points.listed")) and c.get("points.line", 0) + c.get("points.op", 0) == c.get("points.listed") \
+        and not total.get("inconclusive")
 
 
 def run_shard(spec):
